@@ -519,14 +519,15 @@ class SymFloat(S.SymR):
         self.prov = prov          # (base_id, scale, err): |value| ~ base*scale +- err
 
     def __format__(self, spec):
-        m = re.fullmatch(r"(\d*)\.(\d+)([fe])", spec)
+        m = re.fullmatch(r"(\d*)\.(\d+)([feE])", spec)
         if not m:
             raise Unsupported("SymFloat.__format__: unsupported spec %r" % spec)
         w = _py_int(m.group(1) or 0)
         P = _py_int(m.group(2))
         if m.group(3) == "f":
             return render_fixed(self.e, P, w, None if self.hint is None else self.hint + 1, self.prov)
-        return render_sci(self.e, P, w, self.hint or 0, self.prov)
+        r = render_sci(self.e, P, w, self.hint or 0, self.prov)
+        return r.upper() if m.group(3) == "E" else r
 
     def __abs__(s):
         if S.eng().decide(s.e < 0):
@@ -794,5 +795,133 @@ def sx_mod(fmt, arg):
     return sx_fstring(*out)
 
 
-HOOKS = dict(_sx_fstring=sx_fstring, _sx_fmtval=sx_fmtval, _sx_format=sx_format, _sx_mod=sx_mod)
+def sx_join(sep, items):
+    if not isinstance(sep, _py_str):
+        return sep.join(items)      # os.path.join and friends
+    items = list(items)
+    if not (isinstance(sep, SymStr) or any(isinstance(i, SymStr) for i in items)):
+        return sep.join(items)
+    cells = []
+    for k, it in enumerate(items):
+        if k:
+            cells += _cells(sep)
+        cells += _cells(it)
+    return mk(cells)
+
+
+HOOKS = dict(_sx_join=sx_join, _sx_fstring=sx_fstring, _sx_fmtval=sx_fmtval, _sx_format=sx_format, _sx_mod=sx_mod)
 SHADOWS = dict(float=SxFloat, int=SxInt, str=SxStr)
+
+
+# ---------------------------------------------------------------------------
+# `re` and `range` shadows
+
+import re as _re
+
+
+class _SymMatch:
+    def __init__(self, m, s):
+        self._m, self._s = m, s
+
+    def _slice(self, k):
+        a, b = self._m.span(k)
+        if a < 0:
+            return None
+        return mk(self._s.cells[a:b])
+
+    def group(self, *ks):
+        if not ks:
+            ks = (0,)
+        r = tuple(self._slice(k) for k in ks)
+        return r[0] if len(r) == 1 else r
+
+    __getitem__ = lambda self, k: self._slice(k)
+
+    def groups(self):
+        return tuple(self._slice(k + 1) for k in range(self._m.re.groups))
+
+    def start(self, k=0):
+        return self._m.start(k)
+
+    def end(self, k=0):
+        return self._m.end(k)
+
+    def span(self, k=0):
+        return self._m.span(k)
+
+
+def _digit_agnostic(pattern):
+    """the pattern must treat all decimal digits alike: no digit literal outside
+    \\d, [0-9] and {m,n}"""
+    p = _re.sub(r"\[0-9\]|\\d|\{[0-9,]*\}", "", pattern)
+    return not any(ch.isdigit() for ch in p)
+
+
+class _SymPattern:
+    def __init__(self, pattern, flags=0):
+        self._p = _re.compile(pattern, flags)
+        self.pattern = pattern
+
+    def _run(self, fn, s, *a):
+        if isinstance(s, SymStr):
+            if not _digit_agnostic(self.pattern):
+                raise Unsupported("regex with digit literals on a symbolic string: %r" % self.pattern)
+            # every symbolic cell is a decimal digit; a digit-agnostic pattern matches
+            # the same spans whatever the digits are
+            txt = "".join("7" if _isd(c) else c for c in s.cells)
+            m = fn(txt, *a)
+            return None if m is None else _SymMatch(m, s)
+        return fn(s, *a)
+
+    def match(self, s, *a):
+        return self._run(self._p.match, s, *a)
+
+    def search(self, s, *a):
+        return self._run(self._p.search, s, *a)
+
+    def fullmatch(self, s, *a):
+        return self._run(self._p.fullmatch, s, *a)
+
+
+class SxRe:
+    """stands for the module `re` in the patched module"""
+    IGNORECASE = _re.IGNORECASE
+    I = _re.I
+    MULTILINE = _re.MULTILINE
+
+    def __getattr__(self, name):
+        return getattr(_re, name)
+
+    @staticmethod
+    def compile(pattern, flags=0):
+        return _SymPattern(pattern, flags)
+
+    @staticmethod
+    def search(pattern, s, flags=0):
+        return _SymPattern(pattern, flags).search(s)
+
+    @staticmethod
+    def match(pattern, s, flags=0):
+        return _SymPattern(pattern, flags).match(s)
+
+    @staticmethod
+    def fullmatch(pattern, s, flags=0):
+        return _SymPattern(pattern, flags).fullmatch(s)
+
+
+def sx_range(*a):
+    """range() whose bounds may be symbolic integers with a path-determined
+    length: returns the list [start, start+1, ...] of symbolic integers"""
+    if not any(isinstance(x, S.SymR) for x in a):
+        return range(*a)
+    if len(a) == 1:
+        start, stop = 0, a[0]
+    elif len(a) == 2:
+        start, stop = a
+    else:
+        raise Unsupported("range() with a step on symbolic bounds")
+    n = S.eng().fork_int(z3.simplify(S.lift(stop) - S.lift(start)), cap=4096)
+    return [start + k if k else start for k in range(max(0, n))]
+
+
+SHADOWS_RE = dict(re=SxRe(), range=sx_range)
